@@ -3,6 +3,7 @@
 mod c02;
 mod c03;
 mod c04;
+mod c39;
 mod core;
 mod gen;
 mod loader;
@@ -25,6 +26,7 @@ fn prop_by_id(id: &str) -> Option<Box<dyn Prop>> {
         "C02" => Some(Box::new(c02::C02)),
         "C03" => Some(Box::new(c03::C03)),
         "C04" => Some(Box::new(c04::C04)),
+        "C39" => Some(Box::new(c39::C39)),
         _ => None,
     }
 }
@@ -427,7 +429,12 @@ fn cmd_check(args: &[String]) -> i32 {
             continue;
         }
         reported.push(class);
-        let path = format!("{replay_dir}/{id}-{}-{}.json", v.oracle, vcommon::hex(v.seed));
+        let path = format!(
+            "{replay_dir}/{id}-{}-{}-{:04x}.json",
+            v.oracle,
+            vcommon::hex(v.seed),
+            vcommon::fnv64(v.signature.as_bytes()) & 0xffff
+        );
         let j = serde_json::to_value(v).unwrap();
         if let Err(e) = vcommon::write_json(&path, &j) {
             harness_error(&format!("{path}: {e}"));
